@@ -108,7 +108,7 @@ impl Family {
     }
 }
 /// time allowed for one measured build (the largest quick-tier build takes about a second)
-pub const BUILD_SECONDS: u64 = 90;
+pub const BUILD_SECONDS: u64 = 40;
 
 pub struct KeyGen {
     digits: Vec<u64>,
